@@ -65,7 +65,25 @@ impl HashCache {
                 e
             )
         })?;
-        let db = sled::open(database_path.to_path_buf()).map_err(|e| {
+        let db = match sled::open(database_path.to_path_buf()) {
+            // A run that was killed while the database was being written can leave it unreadable.
+            // The cache holds nothing that cannot be computed again, so start over with an empty one
+            // instead of failing every later run.
+            Err(sled::Error::Corruption { .. }) => {
+                std::fs::remove_dir_all(database_path.to_path_buf())
+                    .and_then(|_| create_dir_all(database_path.to_path_buf()))
+                    .map_err(|e| {
+                        format!(
+                            "Failed to discard corrupted hash database at {}: {}",
+                            database_path.to_escaped_string(),
+                            e
+                        )
+                    })?;
+                sled::open(database_path.to_path_buf())
+            }
+            other => other,
+        }
+        .map_err(|e| {
             format!(
                 "Failed to open hash database at {}: {}",
                 database_path.to_escaped_string(),
